@@ -557,8 +557,9 @@ def _getters_tabulate(ctx) -> bool | None:
     from ..rules import minieval, wallstub
     from ..rules.minieval import ClassStub, Obj, Stub
     m = pmod("date")
-    meths = m.methods("Date")
+    meths = m.methods_mro("Date")
     props = {k for k, f in meths.items() if any(core.dotted(d) == "property" for d in f.decorator_list)}
+    clevel = minieval.class_level(m, "Date")         # class-level tables of the analysed class (a table of days before each month, ...)
     helpers = {"is_leap": calendar.isleap, "is_long_year": lambda y: _dt.date(y, 12, 28).isocalendar()[1] == 53,
                "days_in_year": lambda y: 366 if calendar.isleap(y) else 365, "week_day": lambda y, mo, d: _dt.date(y, mo, d).isoweekday()}
     glob = {**minieval.module_consts(m), "calendar": minieval.std_module("calendar"),
@@ -586,7 +587,7 @@ def _getters_tabulate(ctx) -> bool | None:
         bad = res.setdefault(name, [])
         try:
             for d in dates:
-                o = Obj(_methods=meths, _props=props, _natives={}, _ctor=glob["Date"], _types=(_dt.date,), year=d.year, month=d.month, day=d.day, weekday=d.weekday,
+                o = Obj(_methods=meths, _props=props, _natives={}, _ctor=glob["Date"], _types=(_dt.date,), **clevel, year=d.year, month=d.month, day=d.day, weekday=d.weekday,
                         isoweekday=d.isoweekday, isocalendar=d.isocalendar, timetuple=d.timetuple, toordinal=d.toordinal)
                 got = minieval.call(meths[name], [o], {}, {**funcs, "$globals": glob})
                 counts[name] = counts.get(name, 0) + 1
